@@ -244,7 +244,7 @@ def check_c20(A: Analysis, col: Collector):
             t = g_.test
             mentions = any(isinstance(c, ast.Call) and isinstance(c.func, ast.Name) and c.func.id in ("isinstance", "issubclass") and len(c.args) == 2 and norm(c.args[0]) in (ovar, tvar) and any(isinstance(k, ast.Name) and k.id == "str" for k in ast.walk(c.args[1])) for c in ast.walk(t))
             ends = isinstance(g_.body[-1], (ast.Return, ast.Raise))
-            passes = any(isinstance(n, ast.Call) and n.args and isinstance(n.args[0], ast.Name) and n.args[0].id == tvar for n in ast.walk(g_))
+            passes = any(isinstance(n, ast.Call) and isinstance(n.func, ast.Name) and n.func.id in co.nested and n.args and isinstance(n.args[0], ast.Name) and n.args[0].id == tvar for st_ in g_.body for n in ast.walk(st_))
             if mentions and ends and not passes:
                 guard = g_
         if guard is not None:
